@@ -1,10 +1,15 @@
 // Command c12: schedule harness for C12/C13 (resolver subscription registry).
 //
-//	c12 explore -seed N -n MAXRUNS -ms BUDGET -out FILE [-deep 1]
-//	c12 replay  -scn "<family> <index> <seed>" -choices "0,1,0" -out FILE
+//	c12 explore -seed N -ms BUDGET -perfam K -nrand N -perrand K -out FILE
+//	c12 replay  -scn "<family> <index> <seed>" -choices "L0,cl:1,st:1,..." -out FILE
+//	c12 corpus  -in corpus/C12/cases.txt -out FILE
+//	c12 ident   -seed N [-nrand K] -out FILE      (trigger identity on the real SubscriptionSource, see ident.go)
 //
-// Every output line is one run: scenario, steps (who was started / released, where it stopped,
-// the observables of that step, status changes of bystanders), final registry sizes and counters.
+// Every output line of explore / replay / corpus is one run: scenario, steps (who was started / released, where it
+// stopped, the observables of that step, status changes of bystanders), final registry sizes and counters.
+// Parking points: the verifYield call sites of package resolve, the gates of the scripted data source (ext.hook,
+// ext.start) and every call on a subscriber's writer (ext.w: the goroutine parks INSIDE Write / Flush / Complete /
+// Error / Heartbeat / WriteError; entry and return of the call are logged as (w ...) and (we ...)).
 package main
 
 import (
